@@ -12,6 +12,17 @@ def nontrivial(req, obs):
     return len(f) in (3, 4) and f[1].count(";") >= 1 and obs != "-"
 
 
+def _split_cand(c):
+    """'<id>:<nd>:<params>[:t<kinds>]' -> (id, nd, [params], suffix)"""
+    parts = c.split(":")
+    ps = parts[2].split(",") if parts[2] else []
+    return parts[0], int(parts[1]), ps, (":" + parts[3] if len(parts) > 3 else "")
+
+
+def _join_cand(cid, nd, ps, suffix):
+    return "%s:%d:%s%s" % (cid, min(nd, len(ps)), ",".join(ps), suffix)
+
+
 def finding_key(req, obs, detail):
     import re
     m = re.match(r"FAIL:panic ([^:]+):\d+: (.*)$", detail or "")
@@ -21,7 +32,11 @@ def finding_key(req, obs, detail):
             if crate in path:       # a scratch copy of the repository (VERIF_REPO) has another absolute prefix
                 path = path[path.index(crate):]
                 break
-        return "panic %s: %s" % (path, re.sub(r"\d+", "N", m.group(2)))
+        msg = re.sub(r"\d+", "N", m.group(2))
+        if path.endswith("ir/src/ir_types.rs") and re.search(r"inside (vector|matrix)$", msg):
+            # TypeRegistry::register_type: one defect, the message names the offending inner layer
+            msg = "<non-scalar layer> inside vector/matrix"
+        return "panic %s: %s" % (path, msg)
     f = req.split("\t")
     if f[0] == "C16.resolve" and len(f) in (3, 4):
         # the finding is about the candidate *set* and the arguments, not about one declaration order
@@ -33,43 +48,49 @@ def shrink(req):
     f = req.split("\t")
     if f[0] != "C16.resolve" or len(f) not in (3, 4):
         return
-    tail = f[3:]
-    if tail:
-        # without the separate definitions
-        yield "\t".join(f[:3])
-    cands = f[1].split(";")
-    # drop one candidate
-    if len(cands) > 2:
+    opts = [o for o in (f[3].split(",") if len(f) == 4 and f[3] else [])]
+
+    def line(cands, args, o):
+        return "\t".join([f[0], ";".join(cands), ",".join(args)] + ([",".join(o)] if o else []))
+
+    cands = f[1].split(";") if f[1] else []
+    args = f[2].split(",") if f[2] else []
+    # drop one option (declared-then-defined, the call path, the explicit template arguments); the compiler's own
+    # overloads (ids >= 1000) only make sense on their path
+    builtin = any(int(_split_cand(c)[0]) >= 1000 for c in cands)
+    for i, o in enumerate(opts):
+        if o.startswith("P=") and builtin:
+            continue
+        yield line(cands, args, opts[:i] + opts[i + 1:])
+    # drop one (user) candidate
+    if len(cands) > 1:
         for i in range(len(cands)):
-            yield "\t".join([f[0], ";".join(cands[:i] + cands[i + 1:]), f[2]] + tail)
+            if int(_split_cand(cands[i])[0]) < 1000:
+                yield line(cands[:i] + cands[i + 1:], args, opts)
     # drop one parameter / argument position everywhere
-    args = f[2].split(",")
-    if len(args) > 1:
+    if len(args) > 1 and not builtin:
         for k in range(len(args)):
             new = []
             ok = True
             for c in cands:
-                cid, nd, ps = c.split(":", 2)
-                ps = ps.split(",")
+                cid, nd, ps, suf = _split_cand(c)
                 if k >= len(ps):
                     ok = False
                     break
-                ps = ps[:k] + ps[k + 1:]
-                new.append("%s:%d:%s" % (cid, min(int(nd), len(ps)), ",".join(ps)))
-            if ok and len(set(c.split(":", 2)[2] for c in new)) == len(new):
-                yield "\t".join([f[0], ";".join(new), ",".join(args[:k] + args[k + 1:])] + tail)
+                new.append(_join_cand(cid, nd, ps[:k] + ps[k + 1:], suf))
+            if ok and len(set((tuple(_split_cand(c)[2]), _split_cand(c)[3]) for c in new)) == len(new):
+                yield line(new, args[:k] + args[k + 1:], opts)
     # drop trailing defaulted parameters
     new = []
     changed = False
     for c in cands:
-        cid, nd, ps = c.split(":", 2)
-        ps = ps.split(",")
-        if len(ps) > len(args):
+        cid, nd, ps, suf = _split_cand(c)
+        if len(ps) > len(args) and int(cid) < 1000:
             ps = ps[:len(args)]
             changed = True
-        new.append("%s:%d:%s" % (cid, min(int(nd), len(ps)), ",".join(ps)))
-    if changed and len(set(c.split(":", 2)[2] for c in new)) == len(new):
-        yield "\t".join([f[0], ";".join(new), f[2]] + tail)
+        new.append(_join_cand(cid, nd, ps, suf))
+    if changed and len(set((tuple(_split_cand(c)[2]), _split_cand(c)[3]) for c in new)) == len(new):
+        yield line(new, args, opts)
 
 
 def search(ctx):
@@ -114,7 +135,7 @@ def search(ctx):
 
 SPEC = {
     "id": "C16",
-    "gens": ["RankTable"],
+    "gens": ["RankTable", "ResolveShape"],
     "lean_modules": ["RsslVerif.Thm.C16"],
     "theorems": [T + n for n in [
         # facts about the re-extracted tables
@@ -130,41 +151,81 @@ SPEC = {
         "resolveLazy_eq_resolve", "resolveLazy_perm",
         # recorded readings / witnesses (decide on concrete inputs, replayed on the real code by corpus/C16.txt)
         "in_out_twin_is_ambiguous", "default_twin_is_ambiguous", "vec1_twin_is_ambiguous",
-        "tournament_without_winner", "scalar_to_matrix_selected"]],
+        "tournament_without_winner", "scalar_to_matrix_selected",
+        # candidates of every kind (GCand: arbitrary deduction relation and arity range; TCand: the generator's templates)
+        "resolveG_perm", "resolveG_perm_normalized", "resolveG_of_plain", "plain_wf", "template_wf",
+        "selectedG_not_dominated", "selectedG_is_viable", "unique_exact_selectedG", "twin_exact_ambiguousG",
+        "resolveGLazy_eq_resolveG", "resolveGLazy_perm", "resolveT_perm", "resolveTLazy_eq_resolveT",
+        "template_twin_is_ambiguous", "template_literal_deduces_int", "template_const_vector_argument",
+        "explicit_args_exclude_plain_functions", "template_vector_of_vector_panics",
+        "template_param_matches_exactly", "simple_templates_never_panic", "unique_exact_selectedT",
+        # the source text of the transcribed routines, re-extracted each run
+        "resolve_shape_as_modelled", "resolve_source_as_transcribed"]],
     "harness": "c16",
     "nontrivial": nontrivial,
     "finding_key": finding_key,
     "shrink": shrink,
     "search": search,
-    "level_text": "Proof: the model of find_function_type (viability by ImplicitConversion::find per argument, numeric-rank "
-                  "tournament, VectorRank count vector, unique/several/none) is proved, for every candidate list, arity and "
-                  "argument list, to give the same verdict under every permutation of the declaration order, to select a "
-                  "unique exactly-matching candidate, to report several exactly-matching candidates as ambiguous and never "
-                  "to select a dominated candidate. The rank tables are re-extracted from casting.rs each run; the model is "
-                  "compared with the real type checker on generated programs under every declaration order and with "
+    "level_text": "Proof: the model of find_function_type (arity guard, the template half of find_overload_casts as an "
+                  "arbitrary may-fail/may-panic function of the argument types, ImplicitConversion::find per argument, "
+                  "numeric-rank tournament, VectorRank count vector, unique/several/none) is proved, for every candidate list "
+                  "of every kind (ordinary functions, default arguments, function templates with any deduction relation), "
+                  "arity and argument list, to give the same verdict under every permutation of the declaration order, to "
+                  "select a unique exactly-matching candidate, to report several exactly-matching candidates as ambiguous "
+                  "and never to select a dominated candidate; the loop-by-loop transcription with lazily evaluated get_rank "
+                  "is proved equal to it. The rank tables and the text of the transcribed routines are re-extracted from the "
+                  "source each run (a reshaped loop stops the theorems from checking); the model is compared with the real "
+                  "type checker on generated programs under every declaration order on every call path that reaches "
+                  "find_function_type (free functions, methods called from outside and inside, methods of struct templates, "
+                  "namespaces qualified / reopened / hiding / absolute, user overloads of intrinsics, intrinsic methods of "
+                  "objects, function templates with deduced and explicit template arguments) and with "
                   "ImplicitConversion::find/get_rank/get_target_type on an exhaustive table of type pairs.",
-    "rule": "C16.resolve requests = (candidate list in declaration order, argument types) compiled as an RSSL program whose "
-            "overloads return distinct structs and whose call is wrapped in assert_type<R>(f(args)); every permutation of "
-            "every candidate set is run (sets of 2-5 overloads, 1-3 parameters over {bool,int,uint,half,float,double} x "
-            "{scalar,2,3,4} x in/out/inout, some with a defaulted trailing parameter; arguments = grid types as lvalue, "
-            "rvalue, const lvalue, and untyped int/float literals). C16.conv requests = one row of the exhaustive "
-            "find/get_rank/get_target_type table over 8 scalar kinds x {scalar, vec1-4, 2 matrices} + enums + structs x "
+    "rule": "C16.resolve requests = (candidate list in declaration order, argument types, options) compiled as an RSSL program "
+            "whose overloads return distinct structs and whose call is wrapped in assert_type<R>(f(args)); the verdict is read "
+            "from the type checker's structured result (Call node of the accepted module / AssertTypeFailed / "
+            "FunctionArgumentTypeMismatch ids + ambiguous flag), for a selected template also the template arguments of the "
+            "called instantiation; every permutation of every user-declared candidate set is run (sets of 1-5 overloads, 1-3 "
+            "parameters over {bool,int,uint,half,float,double} x {scalar,2,3,4} x in/out/inout, some with a defaulted trailing "
+            "parameter, off the grid 1-vectors, matrices, structs, enums, arrays; templates with T / vector<T,n> / "
+            "matrix<T,x,y> / T[n] parameters, type and value template parameters; arguments = lvalue, rvalue, const lvalue, "
+            "untyped int/float literals, written as locals, struct members, casts, globals). Oracle (independent of get_rank): "
+            "same verdict under every order and every argument spelling; hidden outer overloads never selected; a candidate "
+            "whose parameter types equal the argument types is selected (several: ambiguous between exactly those); the "
+            "selected candidate is viable and not dominated, conversion quality taken from a hand-written copy of the priority "
+            "table in casting.rs's header comment. C16.conv requests = one row of the exhaustive find/get_rank/"
+            "get_target_type table over 8 scalar kinds x {scalar, vec1-4, 2 matrices} + enums + structs x "
             "{none,const,volatile} x {lvalue,rvalue}. non-trivial = at least two candidates / a table row.",
     "trusted_base": [
         "Lean 4.33 kernel; axioms propext / Classical.choice / Quot.sound only (audited by #print axioms)",
-        "tools/gens/c16.py (RankTable: ScalarType, NumericDimension, InputModifier->ValueType, NumericRank + order + "
-        "compare, VectorRank + worst_to_best, the (source_scalar,dest_scalar) rank match, get_rank's DimensionCast match) "
-        "— re-run on /repo's working tree every time",
-        "hand-written Model/Conv.lean (dimension/primary/modifier cast logic of find) and Model/Overload.lean "
-        "(find_function_type: `resolveLazy` is the loop-by-loop transcription answering the correspondence requests, "
-        "`resolve` the form the theorems use, proved equal) — tied to the code by the correspondence run only",
-        "Spec/Overload.lean: our reading of better/worse conversions, domination and exact match",
+        "tools/gens/c16.py — RankTable (ScalarType, NumericDimension, InputModifier->ValueType, NumericRank + order + "
+        "compare, VectorRank + worst_to_best, the (source_scalar,dest_scalar) rank match, get_rank's DimensionCast match) and "
+        "ResolveShape (19 regular-expression facts about find_function_type / find_overload_casts / find_identifier / "
+        "find_identifier_in_scope / insert_function_in_scope / get_struct_member_expression, the callers of "
+        "find_function_type, and the comment- and whitespace-free text of find_function_type, find_overload_casts, "
+        "try_infer_template_type, normalize_template_type) — re-run on /repo's working tree every time",
+        "hand-written Model/Conv.lean (dimension/primary/modifier cast logic of find), Model/Overload.lean and "
+        "Model/OverloadT.lean (find_function_type and the template half of find_overload_casts: `resolveTLazy` is the "
+        "loop-by-loop transcription answering the correspondence requests, `resolveT`/`resolveG` the form the theorems use, "
+        "proved equal); Model/OverloadSrc.lean holds the source text they were transcribed from "
+        "(resolve_source_as_transcribed) — their *meaning* is tied to the code by the correspondence run only",
+        "Spec/Overload.lean: our reading of better/worse conversions, domination and exact match; harness/src/c16.rs: the "
+        "oracle's hand-written conversion-quality table, its reading of template argument deduction, and "
+        "ImplicitConversion::find(..).is_ok() as the definition of 'viable'",
     ],
     "assumptions": [
         "TypeId equality is structural equality of types (the type registry hash-conses layers)",
-        "no template functions / explicit template arguments (find_overload_casts' template branch is not modelled)",
         "exactly matching = every passed argument has the type of its parameter, ignoring value category, const and "
-        "trailing defaulted parameters; two such candidates (f(int)/f(out int), f(int)/f(int, int = 0)) are ambiguous",
-        "FunctionIds of the candidates are pairwise distinct",
+        "trailing defaulted parameters; two such candidates (f(int)/f(out int), f(int)/f(int, int = 0), "
+        "template<T> f(T)/f(int)) are ambiguous; judged wherever no 1-vector is involved (int -> int1 is ranked exact)",
+        "FunctionIds of the candidates are pairwise distinct; an instantiated signature has as many parameters as the "
+        "template (WF, proved for the modelled templates)",
+        "which overload list reaches find_function_type (innermost scope that knows the name; all methods of the struct; all "
+        "functions of the object; intrinsics + user functions of that name in the root scope) is fingerprinted "
+        "(resolve_shape_as_modelled) and exercised by the call-path streams, not modelled in Lean",
+        "template parameters appear in parameter types only as T, vector<T,n>, matrix<T,x,y>, T[n]; the compiler's own "
+        "templates (Load<T>, Store(uint,T), DispatchMesh) are run with type arguments only; one call per program (the "
+        "instantiation cache is never hit twice)",
+        "known defect (known_findings.jsonl): binding T of vector<T,n>/matrix<T,x,y> to a non-scalar panics in "
+        "TypeRegistry::register_type; the model reproduces the panic (template_vector_of_vector_panics)",
     ],
 }
